@@ -45,6 +45,7 @@ const (
 	exNoResolve        // only with ExclusiveWork
 	exResolveTwice     // only with ExclusiveWork
 	exBlockNoResolve   // only with ExclusiveWork
+	exResolveConcurrent // only with ExclusiveWork: resolve called by three goroutines at once (first answer wins)
 )
 
 func execExclusiveT3(t *trace, script []string) {
@@ -75,7 +76,7 @@ func execExclusiveT3(t *trace, script []string) {
 				}
 			}
 			if c.style >= exStyleOpts {
-				c.behave = r.Pick(3, 3, 4, 2, 1, 1)
+				c.behave = r.Pick(3, 3, 4, 2, 1, 1, 2)
 			} else {
 				c.behave = r.Pick(3, 2)
 			}
@@ -202,6 +203,27 @@ func execExclusiveT3(t *trace, script []string) {
 					res(c.val + 1000)
 				case exBlockNoResolve:
 					<-c.gate
+				case exResolveConcurrent:
+					// a hedged work function: several goroutines race to resolve (with the same value); exactly one may count
+					log.Add("fnresolve %d r=%d", by, c.val)
+					var rw sync.WaitGroup
+					var ready atomic.Int32
+					for g := 0; g < 3; g++ {
+						rw.Add(1)
+						go func() {
+							defer rw.Done()
+							defer func() {
+								if p := recover(); p != nil {
+									log.Add("!panic resolve %v", strings.ReplaceAll(fmt.Sprint(p), " ", "_"))
+								}
+							}()
+							ready.Add(1)
+							for ready.Load() < 3 {
+							}
+							resolve(c.val, nil)
+						}()
+					}
+					rw.Wait()
 				}
 			}
 		}
